@@ -2609,6 +2609,10 @@ class PGPKey(Armorable, ParentRef, PGPObject):
         :returns: A new :py:obj:`PGPMessage` with the decrypted contents of ``message``.
         """
         if not message.is_encrypted:
+            if len(message._sessionkeys) > 0:
+                # session-key packets without an encrypted data packet: what is left of an encrypted message, not an unencrypted one
+                raise PGPError("This message has session key packets but no encrypted data")
+
             warnings.warn("This message is not encrypted", stacklevel=3)
             return message
 
